@@ -26,6 +26,9 @@ type scriptCase struct {
 	// Shape of the spending transaction: 0 = 1 input / 1 output, 1 = 1 input / no output,
 	// 2 = 2 inputs (checked input last) / 1 output, 3 = 2 inputs (checked first) / 2 outputs
 	Shape int `json:"tx_shape,omitempty"`
+	// FixedPrev: the spent outpoint is a constant instead of the id of a credit transaction
+	// that contains the locking script (needed when a signature sits inside the script it signs)
+	FixedPrev bool `json:"fixed_prevout,omitempty"`
 }
 
 func (c scriptCase) idx() int {
@@ -40,6 +43,9 @@ func (c scriptCase) ctx() (*txref.Tx, uint64) {
 	tx := scriptref.SpendingTx(c.Unlock, c.Lock, amount)
 	if c.Version != 0 || c.LockTime != 0 || c.Sequence != 0 {
 		tx.Version, tx.LockTime, tx.Ins[0].Seq = c.Version, c.LockTime, c.Sequence
+	}
+	if c.FixedPrev {
+		tx.Ins[0].TxID = txid32(0x77)
 	}
 	other := txref.In{TxID: txid32(0x3c), Vout: 7, Seq: 0xfffffff0, Script: []byte{0x51}, PrevSats: 999, PrevScript: []byte{0x51}}
 	switch c.Shape {
